@@ -179,5 +179,13 @@ fn main() {
         run.violation(v);
     }
     run.ev.set("extend_path_cases", serde_json::json!(xp_cases));
+    // union / merge with an operand of another configuration or another hasher must be rejected (documented panic)
+    {
+        let (gc, gv) = checks::guards::incompatible_operands();
+        for v in gv {
+            run.violation(v);
+        }
+        run.ev.set("incompatible_operand_cases", serde_json::json!(gc));
+    }
     run.finish();
 }
